@@ -79,7 +79,7 @@ pub fn shipped_src<P: TECurveConfig>() -> Src<P> {
                         e /= &lb;
                     }
                     let mut cur = mul::<P>(&rr, &e);
-                    loop {
+                    for _ in 0..4096 {
                         let next = match &cur {
                             Some(c) => mul::<P>(c, &lb),
                             None => None,
